@@ -1768,6 +1768,12 @@ class Engine:
             h = self.iface_method(o, name)
             if h is not None:
                 return h
+            h = self.policy.get(("obj_method", name))       # library-object models: a method / attribute of ANY opaque object
+            if h is not None:
+                return NativeFn(f"obj.{name}", lambda *a, **k: h(self, o, *a, **k))
+            h = self.policy.get(("obj_attr", name))
+            if h is not None:
+                return h(self, o)
             return self.opaque_attr(o, name)
         if isinstance(o, _ExcValue):
             if name == "args":
